@@ -2,8 +2,26 @@
 from vlib import *
 
 
+def defaults_job(ctx):
+    """The guard is on unless the operator switches it off: what an omitted allow_private_network_connections (and every
+    other documented key) means when the settings file is read the way main.rs reads it (Config.tla DocumentedDefaults)."""
+    ctx.build("c13")
+    t = ctx.tlc("MCConfig", "MCConfig.start.quick.cfg", name="MCConfig.defaults", workers=4, timeout=600, coverage=False)
+    ctx.spec_must_hold(t)
+    lines = [l for l in open(t["out"], errors="replace") if l.startswith('<<"DEFAULTS"')]
+    if len(lines) != 1:
+        raise ToolError("Config.tla printed %d DEFAULTS lines" % len(lines))
+    f = os.path.join(ctx.work, "defaults.vec")
+    open(f, "w").write(lines[0])
+    r = ctx.harness("c13", ["--vectors", f, "--job", "c13.defaults"], name="c13.defaults", timeout=300)
+    if r["counters"].get("default_keys_compared", 0) == 0 and not r.get("violations"):
+        raise ToolError("no default was compared")
+    return r["counters"].get("default_keys_compared", 0)
+
+
 def run(ctx):
     ctx.build("c03")
+    ndef = defaults_job(ctx)
     acts = ("ParseLiteral", "ParseHostName", "LiteralRefuse", "LiteralAccept", "LiteralV6Unavailable", "Resolve", "SelectSkipV6",
             "SelectSuitable", "SelectReject", "SelectEnd", "Connect")
     cfg = "MCEgress.thorough.cfg" if ctx.thorough else "MCEgress.quick.cfg"
